@@ -14,7 +14,7 @@ int main(int argc, char **argv) {
 
   symmat_t S; symmat_build_cols(&S, n, n, pat, "a", symcols);
   real_t u = 1;
-  if (umode == 1) { u = SYMREAL("u"); slusym_assume_cmp(2, (double)u, 0.0); slusym_assume_cmp(5, (double)u, 1.0); } else if (umode == 2) u = 0.5;
+  if (umode == 1) { u = SYMREAL("u"); slusym_assume_cmp(3, (double)u, 0.0); slusym_assume_cmp(5, (double)u, 1.0); } else if (umode == 2) u = 0.5; else if (umode == 3) u = 0;   /* documented range of DiagPivotThresh is [0,1] */
   elem_t *b = (elem_t *)malloc(sizeof(elem_t) * (ldb * (nrhs > 0 ? nrhs : 1) + 1)), *b0 = (elem_t *)malloc(sizeof(elem_t) * (ldb * (nrhs > 0 ? nrhs : 1) + 1));
   char nm[32];
   for (int j = 0; j < nrhs; j++) for (int i = 0; i < ldb; i++) { snprintf(nm, sizeof nm, "b%d_%d", i, j); b[j * ldb + i] = b0[j * ldb + i] = e_sym(nm); }
